@@ -114,6 +114,27 @@ func c07Trees(quick bool, blk int64) []*treeSpec {
 		}
 		trees = append(trees, frag)
 	}
+	// many directories: the directory table itself spans several metadata blocks, so most directories (and nested ones)
+	// start in a later block; and many symlinks with targets of every length 1..240 so that some target straddles an
+	// inode-table metadata block boundary at every alignment
+	{
+		md := &treeSpec{Files: map[string][]byte{}, Links: map[string]string{}}
+		for d := 0; d < 48; d++ {
+			dn := fmt.Sprintf("dir%03d", d)
+			md.Dirs = append(md.Dirs, dn, dn+"/sub", dn+"/sub/deeper")
+			for i := 0; i < 14; i++ {
+				md.Files[fmt.Sprintf("%s/file-with-a-rather-long-name-%03d.txt", dn, i)] = sqContent(fmt.Sprint("md", d, i), (d*14+i)%9)
+			}
+			md.Files[dn+"/sub/deeper/leaf.txt"] = []byte(dn)
+			md.Links[dn+"/sub/up"] = "../file-with-a-rather-long-name-000.txt"
+		}
+		trees = append(trees, md)
+		ml := &treeSpec{Dirs: []string{"links"}, Files: map[string][]byte{"links/target": []byte("t")}, Links: map[string]string{}}
+		for i := 0; i < 720; i++ {
+			ml.Links[fmt.Sprintf("links/link-%04d", i)] = strings.Repeat("t/", (i%240)/2) + strings.Repeat("e", 1+i%2) + fmt.Sprint(i)
+		}
+		trees = append(trees, ml)
+	}
 	// sparse file: a hole of several blocks between data
 	sp := make([]byte, 6*b+5)
 	copy(sp, "head")
@@ -372,7 +393,7 @@ func C07(r *ev.Run) {
 	r.Set("evaluations", int64(done))
 	r.Set("distinct_nontrivial", int64(ok.n()))
 	r.Set("distinct_outcomes", outcomes.snapshot())
-	r.Set("rule", "trees: every ordered forest with <= 4 nodes (quick: 3) and height <= 3 x name rotations x size rotations over {0,1,blk-1,blk,blk+1,2blk+17} with zero-run / compressible / incompressible contents chosen per path; plus symlink variants, a file mixing compressible and incompressible full blocks, 2000 entries in one directory, 530 files with fragment tails (> 512 fragment blocks), a sparse file; x compressor {default, gzip level 9, xz, lz4, zstd} x fragments on/off x NoCompress{Inodes,Data,Fragments}/NoPad variants x block size {4 KiB, 128 KiB, 1 MiB} x read cache {default, 0, one block} x start {0, 1 MiB}; non-trivial = distinct (tree, options) pairs that Finalize accepted and that were read back and compared entry by entry, with the superblock checked against the device write log")
+	r.Set("rule", "trees: every ordered forest with <= 4 nodes (quick: 3) and height <= 3 x name rotations x size rotations over {0,1,blk-1,blk,blk+1,2blk+17} with zero-run / compressible / incompressible contents chosen per path; plus symlink variants, a file mixing compressible and incompressible full blocks, 2000 entries in one directory, 530 files with fragment tails (> 512 fragment blocks), 48 directories x 14 long names with nested sub-directories (directory table of several metadata blocks), 720 symlinks with targets of every length 3..245 (targets straddling inode metadata blocks), a sparse file; x compressor {default, gzip level 9, xz, lz4, zstd} x fragments on/off x NoCompress{Inodes,Data,Fragments}/NoPad variants x block size {4 KiB, 128 KiB, 1 MiB} x read cache {default, 0, one block} x start {0, 1 MiB}; non-trivial = distinct (tree, options) pairs that Finalize accepted and that were read back and compared entry by entry, with the superblock checked against the device write log")
 	r.Set("exhaustive", done == len(cases))
 	r.Assume("the same tree compared against the source under every option set makes the views identical across option sets (differential oracle)")
 }
